@@ -13,7 +13,7 @@ RULE = (
     "DisconnectionError / InvalidatePoolError / Exception / BaseException), the real DefaultDialect for reset/close/"
     "pre-ping, and a patched logical clock (pool.base.time; per-call ticking or frozen).  Histories of <= 6 harness "
     "operations (connect, close, invalidate hard/soft, detach, del+gc, clock advance, Pool._invalidate) followed by a "
-    "release phase, x EVERY single fault placement (every external call of the fault-free run x every code applicable "
+    "release phase (pool_recycle unset / expired / not yet expired via the logical clock, combined with soft and pool-wide invalidation), x EVERY single fault placement (every external call of the fault-free run x every code applicable "
     "to that call); thorough adds every double placement on a subset, plus random longer histories with random fault "
     "scripts.  Compared after every operation: result class, connection handed out (creation index), whether a new "
     "fairy was made, the exact sequence of DBAPI calls, records in use, checkedout()/checkedin()/overflow(); at the end "
@@ -471,7 +471,7 @@ def _rand_cfg(rng, kind=None):
         rng.choice([0, 1, 1, 2]),
         rng.choice([-1, 0, 1]),
         rng.randint(0, 1),
-        rng.choice([-1, -1, 0, 3]),
+        rng.choice([-1, -1, 0, 3, 50]),
         rng.randint(0, 1),
         rng.randint(0, 1),
         rng.choice([0, 0, 1, 2]),
@@ -532,6 +532,29 @@ def gen_cases(rng, tier):
             if faults:
                 faults[rng.randrange(len(faults))] = rng.choice([1, 2, 3, 4])
         cases.append({"in": [cfg, ops, faults], "kind": "random"})
+    # (b2) staleness vs. recycle: pool_recycle configured (not yet expired / expired through the logical clock)
+    #      combined with soft invalidation and pool-wide invalidation, then fresh checkouts
+    for _ in range(900 if thorough else 90):
+        kind = rng.choice([KQ, KQ, KQ, KSG, KAS, KST])
+        cfg = [kind, rng.choice([1, 2, 2]), rng.choice([0, 1]), rng.randint(0, 1), rng.choice([50, 50, 200, 6]),
+               rng.randint(0, 1), rng.randint(0, 1), rng.choice([0, 1, 2]), 1]
+        fam = rng.randint(0, 3)
+        late = [[O_TICK, 0, rng.choice([1, 60, 300])]] if rng.random() < 0.4 else []
+        if fam == 0:  # soft-invalidate, return, check out again
+            ops = [[O_CONNECT, 0, 1], [O_SOFT, 0, 1], [rng.choice([O_CLOSE, O_DEL]), 0, 1]] + late + [[O_CONNECT, 0, 1]]
+            faults = []
+        elif fam == 1:  # Pool._invalidate through one holder while another connection is idle
+            ops = [[O_CONNECT, 0, 1], [O_CONNECT, 0, 1], [O_CLOSE, 1, 1], [O_POOLINV, 0, 1]] + late + [[O_CONNECT, 0, 1], [O_CONNECT, 0, 1]]
+            faults = []
+        elif fam == 2:  # the checkout listener / pre-ping of a later checkout invalidates the pool
+            cfg[5], cfg[6] = rng.choice([(0, 1), (1, 0), (1, 1)])
+            ops = [[O_CONNECT, 0, 1], [O_CONNECT, 0, 1], [O_CLOSE, 0, 1], [O_CLOSE, 1, 1], [O_CONNECT, 0, 1]] + late + [[O_CONNECT, 0, 1]]
+            ncalls = len(_calls(cfg, ops[:4], []))
+            faults = [0] * ncalls + [rng.choice([3, 4])]
+        else:
+            ops, nconn = _rand_history(rng, rng.randint(3, 7))
+            faults = [rng.choice([0, 0, 0, 0, 3, 4]) for _ in range(rng.randint(0, 10))]
+        cases.append({"in": [cfg, ops, faults], "kind": "recycle-vs-invalidation"})
     # (c) the witnesses of the refutation theorems in props/C26.v
     for w in WITNESSES:
         cases.append({"in": w, "kind": "refutation-witness"})
